@@ -22,6 +22,9 @@ GATES = ("nontrivial", "runs.globalized", "runs.deriv_check", "runs.scaled", "fi
 def generate(rng, seed, index, tier):
     fam = str(rng.choice(["qp", "nlp", "degenerate", "domain", "infeasible", "saddle"], p=[0.25, 0.25, 0.05, 0.25, 0.05, 0.15]))
     spec, x0, y0 = gen.gen_problem(rng, fam, fixed_prob=0.4)
+    x0 = gen.magnify(rng, spec, x0, p=0.1)
+    if fam in ("qp", "nlp", "saddle") and rng.random() < 0.1:
+        x0 = gen.integer_bounds(rng, spec, x0)
     x0, y0, sform = gen.start_forms(rng, spec, x0, y0, p=0.12)
     kw = gen.gen_params(rng, spec, x0, y0, p_knob=0.5, reporting=False, numeric=0.2)
     if rng.random() < 0.25:
